@@ -321,3 +321,116 @@ Proof.
   apply andb_true_iff in H. destruct H as [Hc _]. exists c, t. split; [reflexivity|].
   repeat (apply orb_true_iff in Hc; destruct Hc as [Hc|Hc]); apply N.eqb_eq in Hc; subst; auto.
 Qed.
+
+(* ---- what the scanner leaves is a suffix of its input -------------------------------------- *)
+
+Definition suffix (r s : bytes) : Prop := exists p, s = p ++ r.
+
+Lemma suffix_refl s : suffix s s.
+Proof. exists []. reflexivity. Qed.
+Lemma suffix_cons c r s : suffix r s -> suffix r (c :: s).
+Proof. intros [p ->]. exists (c :: p). reflexivity. Qed.
+Lemma suffix_trans a b c : suffix a b -> suffix b c -> suffix a c.
+Proof. intros [p ->] [q ->]. exists (q ++ p). now rewrite app_assoc. Qed.
+Lemma suffix_tail c s : suffix s (c :: s).
+Proof. apply suffix_cons, suffix_refl. Qed.
+
+Lemma skip_ws_suffix s : suffix (skip_ws s) s.
+Proof.
+  induction s as [|a s IH]; cbn; [apply suffix_refl|].
+  destruct (is_ws a); [now apply suffix_cons | apply suffix_refl].
+Qed.
+
+Lemma skip_ws_suffix_eq s c s' : skip_ws s = c :: s' -> suffix (c :: s') s /\ suffix s' s.
+Proof.
+  intros E. pose proof (skip_ws_suffix s) as H. rewrite E in H. split; [exact H|].
+  eapply suffix_trans; [apply suffix_tail | exact H].
+Qed.
+
+Lemma scan_str_suffix : forall s st r, scan_str st s = Done r -> suffix r s.
+Proof.
+  induction s as [|c s IH]; intros st r H; cbn in H; [discriminate|].
+  destruct st.
+  - destruct (c =? 34); [inversion H; apply suffix_tail|].
+    destruct (c =? 92); [apply suffix_cons; eauto|]. destruct (c <? 32); [discriminate|apply suffix_cons; eauto].
+  - destruct (is_esc1 c); [apply suffix_cons; eauto|]. destruct (c =? 117); [apply suffix_cons; eauto|discriminate].
+  - destruct (is_hex c); [|discriminate]. destruct k; apply suffix_cons; eauto.
+Qed.
+
+Lemma scan_num_suffix : forall s st r, scan_num st s = Done r -> suffix r s.
+Proof.
+  induction s as [|c s IH]; intros st r H.
+  - cbn in H. destruct st; try discriminate; inversion H; apply suffix_refl.
+  - revert H. cbn [scan_num].
+    destruct st;
+      repeat match goal with |- context [if ?b then _ else _] => destruct b end;
+      intros H; try discriminate; try (apply suffix_cons; eauto; fail); inversion H; apply suffix_refl.
+Qed.
+
+Lemma scan_lit_suffix : forall l s r, scan_lit l s = Done r -> suffix r s.
+Proof.
+  induction l as [|a l IH]; intros s r H; cbn in H; [inversion H; apply suffix_refl|].
+  destruct s as [|c s]; [discriminate|]. destruct (c =? a); [apply suffix_cons; eauto|discriminate].
+Qed.
+
+Lemma suffix_all : forall f,
+  (forall d s r, scan_value f d s = Done r -> suffix r s) /\
+  (forall d s r, scan_elems f d s = Done r -> suffix r s) /\
+  (forall d s r, scan_members f d s = Done r -> suffix r s).
+Proof.
+  induction f as [|f [IHv [IHe IHm]]].
+  - repeat split; intros; discriminate.
+  - repeat split.
+    + intros d s r H. rewrite scan_value_S in H.
+      destruct (skip_ws s) as [|c s'] eqn:Ews; [discriminate|].
+      destruct (skip_ws_suffix_eq _ _ _ Ews) as [_ Hs'].
+      assert (T : forall x, suffix x s' -> suffix x s) by (intros x Hx; eapply suffix_trans; eauto).
+      destruct (c =? 34); [apply T; eapply scan_str_suffix; eauto|].
+      destruct (c =? 123).
+      { destruct (max_depth <=? d); [discriminate|].
+        destruct (skip_ws s') as [|c2 s2] eqn:E2; [discriminate|].
+        destruct (skip_ws_suffix_eq _ _ _ E2) as [Ha Hb].
+        destruct (c2 =? 125); [inversion H; subst; now apply T|].
+        apply T. eapply suffix_trans; [eapply IHm; eauto | exact Ha]. }
+      destruct (c =? 91).
+      { destruct (max_depth <=? d); [discriminate|].
+        destruct (skip_ws s') as [|c2 s2] eqn:E2; [discriminate|].
+        destruct (skip_ws_suffix_eq _ _ _ E2) as [Ha Hb].
+        destruct (c2 =? 93); [inversion H; subst; now apply T|].
+        apply T. eapply suffix_trans; [eapply IHe; eauto | exact Ha]. }
+      destruct (c =? 45); [apply T; eapply scan_num_suffix; eauto|].
+      destruct (c =? 48); [apply T; eapply scan_num_suffix; eauto|].
+      destruct (is_digit19 c); [apply T; eapply scan_num_suffix; eauto|].
+      destruct (c =? 116); [apply T; eapply scan_lit_suffix; eauto|].
+      destruct (c =? 102); [apply T; eapply scan_lit_suffix; eauto|].
+      destruct (c =? 110); [apply T; eapply scan_lit_suffix; eauto|discriminate].
+    + intros d s r0 H. rewrite scan_elems_S in H.
+      destruct (scan_value f d s) as [r| | |] eqn:Ev; try discriminate.
+      pose proof (IHv _ _ _ Ev) as Hr.
+      destruct (skip_ws r) as [|c r'] eqn:Er; [discriminate|].
+      destruct (skip_ws_suffix_eq _ _ _ Er) as [_ Hb].
+      destruct (c =? 44).
+      { eapply suffix_trans; [eapply IHe; eauto|]. eapply suffix_trans; eauto. }
+      destruct (c =? 93); [inversion H; subst; eapply suffix_trans; eauto|discriminate].
+    + intros d s r0 H. rewrite scan_members_S in H.
+      destruct (skip_ws s) as [|c s1] eqn:Ews; [discriminate|].
+      destruct (skip_ws_suffix_eq _ _ _ Ews) as [_ H1].
+      destruct (c =? 34); [|discriminate].
+      destruct (scan_str SPlain s1) as [s2| | |] eqn:Es; try discriminate.
+      pose proof (scan_str_suffix _ _ _ Es) as H2.
+      destruct (skip_ws s2) as [|c2 s3] eqn:E2; [discriminate|].
+      destruct (skip_ws_suffix_eq _ _ _ E2) as [_ H3].
+      destruct (c2 =? 58); [|discriminate].
+      destruct (scan_value f d s3) as [s4| | |] eqn:Ev; try discriminate.
+      pose proof (IHv _ _ _ Ev) as H4.
+      destruct (skip_ws s4) as [|c3 s5] eqn:E4; [discriminate|].
+      destruct (skip_ws_suffix_eq _ _ _ E4) as [_ H5].
+      assert (T : suffix s5 s).
+      { eapply suffix_trans; [exact H5|]. eapply suffix_trans; [exact H4|].
+        eapply suffix_trans; [exact H3|]. eapply suffix_trans; [exact H2|exact H1]. }
+      destruct (c3 =? 44); [eapply suffix_trans; [eapply IHm; eauto|exact T]|].
+      destruct (c3 =? 125); [inversion H; subst; exact T|discriminate].
+Qed.
+
+Theorem scan_suffix : forall s r, scan s = Done r -> suffix r s.
+Proof. intros s r H. exact (proj1 (suffix_all _) _ _ _ H). Qed.
